@@ -30,7 +30,7 @@ constexpr auto swap(T& a, T& b)
 }
 
 template <typename T, etl::size_t N>
-    requires(etl::is_swappable_v<T>)
+    requires(etl::is_swappable<T>::value)
 constexpr auto swap(T (&a)[N], T (&b)[N]) noexcept(etl::is_nothrow_swappable<T>::value) -> void
 {
     for (etl::size_t i = 0; i < N; ++i) {
